@@ -44,7 +44,11 @@ func (w *waitGroup[T]) Add(elements ...T) {
 		if !w.pendingElements.Add(element) {
 			verifWaitGroupAddWindow()
 
-			w.pendingElementsCounter.Add(-1)
+			// a concurrent Done may have removed the last pending element while the counter was still raised by this
+			// call (so it did not see 0); in that case the correction is the decrement that has to trigger
+			if w.pendingElementsCounter.Add(-1) == 0 {
+				w.Trigger()
+			}
 		}
 	}
 }
